@@ -20,7 +20,7 @@ RULE = (
     "case = valid growth-grammar network (>=2 growth steps) with a drawn construction plan, and a twin with an "
     "independently drawn plan, permuted link/origin/destination/node insertion orders, new names (distinct or drawn "
     "from a 3-letter alphabet so that they clash) and a per-node factor 10^[-3,3] applied to the turn rates of all "
-    "leaving links; one admissible state; NumPy engine always, compiled SX/MX function (compact 0..2, positional "
+    "leaving links; one admissible state (incl. states with zero flow into a merge, where both must agree on NaN); NumPy engine always, compiled SX/MX function (compact 0..2, positional "
     "arguments through the layout model) for 1/3 of the cases. Non-trivial = the twin's link insertion order differs "
     "AND the network has a bifurcation. Distinct = SHA-1 of the case."
 )
@@ -33,7 +33,8 @@ ASSUMPTIONS = ["tolerance 1e-9 x term scale"]
 @st.composite
 def cases(draw):
     sp = draw(gen_nets.specs(min_ops=2))
-    state = draw(gen_nets.states(sp))
+    # incl. the model's own 0/0 (no flow into a merge): both networks must then agree on NaN as well
+    state = draw(gen_nets.states(sp, zero_bias=draw(st.booleans()), allow_singular=True))
     tw = {
         "plan": draw(gen_nets.plans(sp["nodes"], sp["links"], sp["origins"], sp["dests"])),
         "links": list(draw(st.permutations(range(len(sp["links"]))))),
